@@ -61,7 +61,11 @@ class ServerStateMachine(StateMachine):
 
 	def on_uri_complete(self) -> None:
 		super(ServerStateMachine, self).on_uri_complete()
-		self._check_uri_max_length(bytes(self.request.uri))
+		try:
+			uri = bytes(self.request.uri)
+		except UnicodeError:  # host which cannot be IDNA encoded, e.g. an empty label
+			raise BAD_REQUEST(Unicode(InvalidURI(_(u'Invalid URI: host cannot be encoded.'))))
+		self._check_uri_max_length(uri)
 		self.sanitize_request_uri_path()
 		self.validate_request_uri_scheme()
 		self.set_server_response_header()
